@@ -62,7 +62,7 @@ def validate(traces, workdir, monitors=ALL_MONITORS, procs=16, module="ElectionT
         t["id"] = i + 1
         if in_arith_range({a: b for a, b in t.items() if not a.startswith("_")}):
             ok.append(t)
-        elif exact_expected and exact_expected(t):
+        elif exact_expected and exact_expected(t) and not t.get("_wide"):
             inexact.append(t)      # small exact inputs, no fractional transfer: such a value cannot be a correct exact result
         else:
             skipped += 1
